@@ -164,3 +164,14 @@ EXPORT void vh_alloc_scope(int what, uint64_t n, uint64_t p1, uint64_t p2, int64
   out[1] = after - before;
   if (mod) delete_module_info(mod);
 }
+
+// floating-point control state of the calling thread (x86: MXCSR; the x87 control word is not used by the library's code paths):
+// a library call must leave it as it found it (rounding mode, flush-to-zero, denormals-are-zero)
+#if defined(__x86_64__)
+#include <xmmintrin.h>
+EXPORT uint32_t vh_fpenv_get(void) { return _mm_getcsr() & ~0x3Fu; }   // control bits only: the sticky exception flags are not state
+EXPORT void vh_fpenv_set_control(uint32_t v) { _mm_setcsr((_mm_getcsr() & 0x3Fu) | (v & ~0x3Fu)); }
+#else
+EXPORT uint32_t vh_fpenv_get(void) { return 0; }
+EXPORT void vh_fpenv_set_control(uint32_t v) { (void)v; }
+#endif
